@@ -163,10 +163,13 @@ func checkDefs() map[string]*CheckDef {
 			Technique: techDefault, DesignRef: "DESIGN.md §3 C13"},
 		&CheckDef{ID: "C14", Title: "Close",
 			Runs: func(tier string) []RunSpec {
-				return []RunSpec{{Name: "close", Pkg: app, Entry: "VerifC14", Params: map[string]int{"N": tierPick(tier, 5, 6)}, MustCover: []string{"several closers", "no closer"}, Opts: ExecOpts{Sched: "join", Races: true}}}
+				return []RunSpec{
+					{Name: "close", Pkg: app, Entry: "VerifC14", Params: map[string]int{"N": tierPick(tier, 5, 6)}, MustCover: []string{"several closers", "no closer"}, Opts: ExecOpts{Sched: "join", Races: true}},
+					{Name: "many-closers", Pkg: app, Entry: "VerifC14Many", MustCover: []string{"many closers"}, Opts: ExecOpts{Sched: "seq", Races: true}},
+				}
 			},
 			LevelText: "Bounded symbolic model checking of the real App.Close with engine goroutines, WaitGroup and channel models under the adversarial-join schedule (spawned goroutines run only when the parent blocks or returns, in every order; the parent resumes as early as possible): at the instant Close returns every closer ran exactly once and returned, for 0..N closers and every subset that fails.",
-			LevelNote: "Bound N closers (quick 5, thorough 6). Preemption inside a closer body is not explored (closer bodies share nothing but the WaitGroup). select is unsupported (inconclusive).",
+			LevelNote: "Bound N closers (quick 5, thorough 6) under every join schedule, plus 16/17/18/33 closers under one fixed sequential schedule (batch and pool boundaries). Preemption inside a closer body is not explored (closer bodies share nothing but the WaitGroup). select is unsupported (inconclusive).",
 			Technique: techDefault + "; goroutine schedules as symbolic choices", DesignRef: "DESIGN.md §3 C14"},
 		&CheckDef{ID: "C15", Title: "Configuration sources",
 			Runs: func(tier string) []RunSpec {
@@ -301,12 +304,12 @@ func checkDefs() map[string]*CheckDef {
 					{Name: "load-or-store-fn", Pkg: ioc + "/util/sync2", Entry: "VerifC20LoadOrStoreFn", MustCover: []string{"same key", "different keys"}, Opts: il(tierPick(tier, 3, 4))},
 					{Name: "map-linearizable", Pkg: ioc + "/util/sync2", Entry: "VerifC20Linearizable", Params: map[string]int{"OPS": tierPick(tier, 1, 2), "KEYS": tierPick(tier, 2, 1)}, MustCover: []string{"history checked"}, Opts: il(2)},
 					{Name: "set", Pkg: ioc + "/util/list", Entry: "VerifC20Set", Params: map[string]int{"OPS": tierPick(tier, 1, 2)}, MustCover: []string{"set history checked"}, Opts: il(2)},
-					{Name: "scan-phase-races", Pkg: fac, Entry: "VerifC20Scan", Params: map[string]int{"N": tierPick(tier, 3, 4)}, MustCover: []string{"several scanners fail at the same time"}, Opts: ExecOpts{Sched: "join", Races: true}},
-					{Name: "close-races", Pkg: app, Entry: "VerifC14", Params: map[string]int{"N": 3}, MustCover: []string{"several closers"}, Opts: ExecOpts{Sched: "join", Races: true}},
+					{Name: "scan-phase-races", Pkg: fac, Entry: "VerifC20Scan", Params: map[string]int{"N": tierPick(tier, 3, 4)}, MustCover: []string{"several scanners fail at the same time"}, Opts: ExecOpts{Sched: "join", Races: true, RealSyslog: true}},
+					{Name: "close-races", Pkg: app, Entry: "VerifC14", Params: map[string]int{"N": 3}, MustCover: []string{"several closers"}, Opts: ExecOpts{Sched: "join", Races: true, RealSyslog: true}},
 				}
 			},
 			LevelText: "Bounded symbolic model checking with engine goroutines: (a) sync2.Map.{Load,Store,LoadOrStore,LoadOrStoreFn,Delete} and ConcurrentSets.{Put,Exists,Remove} from two goroutines under every interleaving of their visible operations (bounded context switches): two load-or-stores never both win, every history is linearizable (checker written in the harness); (b) the real applyDefinitionRegistryPostProcessors (real tag scanner + scanners failing on solver-chosen components) and App.Close under the adversarial-join schedule with a happens-before race detector (vector clocks over spawn, WaitGroup, Mutex, sync.Map entries, atomics, channels): no two unordered conflicting accesses to one heap cell.",
-			LevelNote: "Bounds: 2 goroutines x 1 (2) operations over 2 (1) keys, <=2-4 preemptive context switches; <=3 (4) scanned components. sync.Map, sync.Mutex, sync.WaitGroup and sync/atomic are trusted models (each method one atomic step); memory model = sequential consistency + happens-before bookkeeping; preemption inside user callbacks, log.Logger, viper and Range concurrent with writers are outside. Counterexamples are replayed natively (go test -race / a barrier inside the LoadOrStoreFn callback).",
+			LevelNote: "Bounds: 2 goroutines x 1 (2) operations over 2 (1) keys, <=2-4 preemptive context switches; <=3 (4) scanned components. sync.Map, sync.Mutex, sync.WaitGroup and sync/atomic are trusted models (each method one atomic step); memory model = sequential consistency + happens-before bookkeeping; preemption inside user callbacks, the stdlib log.Logger (one atomic step), viper and Range concurrent with writers are outside; go-kid/ioc's own syslog package IS executed from SSA in the two race runs (its per-prefix logger instances are shared by the goroutines). Counterexamples are replayed natively (go test -race / a barrier inside the LoadOrStoreFn callback).",
 			Technique: techDefault + "; goroutine schedules as symbolic choices; happens-before race detection in the executor", DesignRef: "DESIGN.md §3 C20"},
 	)
 	// the integration graph run (real App.initiate + run) is cheap and serves several properties
